@@ -86,7 +86,10 @@ def line(op, t, *bumps):
     parts = []
     for b in bumps:
         if isinstance(b, TD):
-            parts.append('(L I:%d)' % (b // proto.US))
+            # "timedeltas add exactly that much time": every fourth time the duration is a pd.Timedelta, every fourth a np.timedelta64
+            # (numpy's timedelta, what a difference of np.datetime64 / an element of a timedelta64 array is): round k3, defect C09-D1
+            k = (b.days + b.seconds + b.microseconds + len(parts) + t.day) % 4
+            parts.append('(%s I:%d)' % ('Lpd' if k == 0 else 'Lnp' if k == 1 else 'L', b // proto.US))
         elif isinstance(b, int) and not isinstance(b, bool) and (b + len(parts) + t.day) % 3 == 0:
             # "integers add exactly n days": an integer is every third time a numpy int64 (an element of np.arange, of a Series of
             # lags): the wire spells it NI:, the model reads the same int (seeded C09-u2: timedelta(days = np.int64) raises)
@@ -96,7 +99,77 @@ def line(op, t, *bumps):
     return '(bump %s %s%s)' % (op, enc(t), ''.join(' ' + p for p in parts))
 
 
+# ---- round k3 (reviews4 v3 §C09.3-1): the start as another python object denoting the same instant, bumps as numpy / pandas durations and
+# numpy ints of every width
+KINDS_ANY = ['ts', 'np', 'iso']
+KINDS_MIDNIGHT = ['date', 'npD', 'ymd', 'isod']
+NP_TD_UNITS = [('us', 1), ('ms', 10 ** 3), ('s', 10 ** 6), ('m', 60 * 10 ** 6), ('h', 3600 * 10 ** 6), ('D', 86400 * 10 ** 6)]
+
+
+def as_kind(kind, t):
+    import numpy as np, pandas as pd
+    if kind == 'ts':
+        return pd.Timestamp(t)
+    if kind == 'np':
+        return np.datetime64(t, 'us')
+    if kind == 'iso':
+        return t.isoformat(' ')
+    assert t == D(t.year, t.month, t.day), 'midnight only'
+    if kind == 'date':
+        return t.date()
+    if kind == 'npD':
+        return np.datetime64(t.date(), 'D')
+    if kind == 'ymd':
+        return t.year * 10000 + t.month * 100 + t.day
+    if kind == 'isod':
+        return t.strftime('%Y-%m-%d')
+    raise ValueError(kind)
+
+
+def line_as(rng, t, *bumps):
+    """(bump bumpas <kind> T:.. <bumps>): start as an object of `kind`; timedeltas now and then as pd.Timedelta / np.timedelta64, ints as numpy ints"""
+    mid = t == D(t.year, t.month, t.day)
+    kind = rng.choice(KINDS_ANY + (KINDS_MIDNIGHT * 2 if mid else []))
+    parts = []
+    for b in bumps:
+        if isinstance(b, TD):
+            parts.append('(%s I:%d)' % (rng.choice(['L', 'Lpd', 'Lnp']), b // proto.US))
+        elif isinstance(b, int) and not isinstance(b, bool):
+            w = rng.choice(['int8', 'int16', 'int32', 'int64']) if -128 <= b <= 127 else rng.choice(['int16', 'int32', 'int64'])
+            parts.append('(NPI %s I:%d)' % (w, b) if rng.random() < 0.6 else enc(b))
+        else:
+            parts.append(enc(b))
+    return '(bump bumpas %s %s%s)' % (kind, enc(t), ''.join(' ' + p for p in parts))
+
+
 def generate(rng, tier):
+    for case in _generate(rng, tier):
+        yield case
+    quick = tier == 'quick'
+    for _ in range(600 if quick else 12000):
+        t = TMIN + TD(rng.randrange((D(2250, 1, 1) - TMIN).days))     # Timestamps: inside pandas' nanosecond range after the bump
+        r = rng.random()
+        if r < 0.45:
+            u = rng.choice(UNITS)
+            if u not in MONTHLY and rng.random() < 0.4:
+                t = t + rand_tod(rng)
+            yield dict(tag='objects-unit-%s' % u, lines=[line_as(rng, t, tok(rand_n(rng), u, rng))])
+        elif r < 0.6:
+            us = [rng.choice(UNITS) for _ in range(rng.choice([2, 3]))]
+            yield dict(tag='objects-compound', lines=[line_as(rng, t, ''.join(tok(rand_n(rng), u) for u in us))])
+        else:
+            if rng.random() < 0.5:
+                t = t + rand_tod(rng)
+            bs = []
+            for _ in range(rng.choice([1, 1, 2, 3])):
+                if rng.random() < 0.5:
+                    bs.append(rng.randint(-60, 60))
+                else:
+                    bs.append(TD(days=rng.randint(-3, 3), seconds=rng.randrange(86400), microseconds=rng.choice([0, 1, 999999])) * rng.choice([1, -1]))
+            yield dict(tag='objects-args', lines=[line_as(rng, t, *bs)])
+
+
+def _generate(rng, tier):
     quick = tier == 'quick'
     # --- translator validation grid: generated kernels against the python functions
     for y in (1900, 2000, 2299):
@@ -211,16 +284,42 @@ def generate(rng, tier):
 
 def dec_bump(a):
     if isinstance(a, list):
-        if a[0] != 'L' or len(a) != 2:
+        if a[0] == 'NPI' and len(a) == 3:
+            import numpy as np
+            v = getattr(np, a[1])(int(a[2][2:]))
+            assert int(v) == int(a[2][2:])
+            return v
+        if a[0] not in ('L', 'Lpd', 'Lnp') or len(a) != 2:
             raise ValueError('bad bump argument')
-        return TD(microseconds=int(a[1][2:]))
+        us = int(a[1][2:])
+        if a[0] == 'Lpd':
+            import pandas as pd
+            return pd.Timedelta(microseconds=us)
+        if a[0] == 'Lnp':
+            import numpy as np
+            unit, k = [(u, k) for u, k in NP_TD_UNITS if us % k == 0][-1]      # the coarsest unit that holds the duration exactly
+            return np.timedelta64(us // k, unit)
+        return TD(microseconds=us)
     return proto.dec_cell(a)
+
+
+def as_datetime(res):
+    return res.to_pydatetime() if hasattr(res, 'to_pydatetime') else res
 
 
 def run_line(state, sx):
     import pyg_base
     from pyg_base import _dates
     op, args = sx[1], sx[2:]
+    if op == 'bumpas':
+        t = as_kind(args[0], proto.dec_cell(args[1]))
+        bs = [dec_bump(a) for a in args[2:]]
+        res = pyg_base.dt_bump(t, *bs)
+        if not isinstance(res, datetime.datetime) or res.tzinfo is not None:
+            return 'ok S:' + hexs(repr(res))
+        if hasattr(res, 'nanosecond') and res.nanosecond:
+            return 'ok S:' + hexs(repr(res))
+        return 'ok ' + enc(as_datetime(res))
     if op in ('bump', 'dt'):
         t = proto.dec_cell(args[0])
         bs = [dec_bump(a) for a in args[1:]]
@@ -282,6 +381,8 @@ def nontrivial(line, reply):
     sx = proto.parse(line)
     if sx[1] in ('bump', 'dt', 'dtrel'):
         return reply != 'ok ' + sx[2] and reply != 'ok N'
+    if sx[1] == 'bumpas':
+        return reply != 'ok ' + sx[3]
     return True
 
 
